@@ -58,6 +58,9 @@ type Ctx struct {
 func NewCtx(prop, tier string, seed int) (*Ctx, error) {
 	c := &Ctx{Prop: prop, Tier: tier, Seed: seed, Start: time.Now(), knownSeen: map[string]int{}}
 	c.Work = filepath.Join(Root, "work", fmt.Sprintf("%s-%s-%d", prop, tier, os.Getpid()))
+	if r := os.Getenv("VERIF_REPO"); r != "" && r != "/repo" {
+		c.noEvidence = true // a run against a scratch checkout (seeded change) says nothing about /repo
+	}
 	if err := os.MkdirAll(c.Work, 0o755); err != nil {
 		return nil, err
 	}
